@@ -182,7 +182,7 @@ def gen_goal(src, vars_, preds, cfg):
 
 def gen_template(src, vars_, goal, cfg):
     """findall template: mostly built from the goal's own variables, wrapped in 0-3 levels of structure"""
-    gv = term_vars(goal, [])
+    gv = [v for v in term_vars(goal, []) if not (isinstance(v[1], str) and v[1].startswith('_'))]
     pool = gv or vars_
     if not pool or src.n(6) == 5:
         return gen_term(src, vars_, cfg)
@@ -375,6 +375,25 @@ def gen_head(src, name, n, vars_, cfg):
     return ('f', name, tuple(args))
 
 
+def split_anon(src, head, body):
+    """`_` is a new variable at every occurrence: a term copied inside a clause (the variant operand of =, a findall
+    template taken from the goal) must not carry an anonymous variable of the original along - text and syntax tree
+    would disagree.  Every occurrence of an anonymous variable becomes a variable of its own."""
+    from .terms import body_map_terms
+    seen = set()
+
+    def m(t):
+        if t[0] == 'v' and isinstance(t[1], str) and t[1].startswith('_'):
+            if t in seen:
+                return anon_var(src)
+            seen.add(t)
+            return t
+        if t[0] == 'f':
+            return ('f', t[1], tuple(m(a) for a in t[2]))
+        return t
+    return m(head), body_map_terms(body, m)
+
+
 def gen_program(src, cfg):
     """returns (preds, clauses): preds = list of (name, arity) usable in queries, clauses = [(head, body)]"""
     pool = cfg.preds
@@ -410,7 +429,7 @@ def gen_program(src, cfg):
             if libs and src.n(3) == 2:
                 body = (',', ('call', gen_lib_call(src, src.pick(libs), vars_, cfg)), body) if src.n(2) else \
                        (',', body, ('call', gen_lib_call(src, src.pick(libs), vars_, cfg)))
-        clauses.append((head, body))
+        clauses.append(split_anon(src, head, body))
     for nm in libs:
         clauses.extend(LIBRARY[nm])
         preds.append((nm, LIB_ARITY[nm]))
